@@ -26,7 +26,7 @@ CAPTURE = {"total_cycles": ["total_cycles"], "iteration_cycles": ["iteration_cyc
 # Scheduler field -> captured field it must be restored from in resume(); None = deliberately rebuilt (reason)
 RESTORE = {"total_cycles": "total_cycles", "next_vm_id": "next_vm_id", "next_fd_slot": "next_fd_slot", "states": "vms", "fds": "fds",
            "inherited_fd": "inherited_fd", "suspended": "vms", "terminated_vms": "terminated_vms",
-           "iteration_cycles": None,   # resume() ends with `iteration_cycles = 0` (suspension is not charged), whatever was captured
+           "iteration_cycles": None,   # assigned after ensure_vms_instantiated from the captured value (rule prov/pending-cycles/restore); the struct-literal value is overwritten
            "sg_data": None,            # rebuilt from the transaction by the caller
            "syscall_generator": None,  # code, not state
            "syscall_context": None,    # caller-provided
@@ -165,8 +165,68 @@ def state_cycles(F, S, R):
                 R.bad("prov/budget-counter/%s" % fn, "the remaining budget is no longer limit minus the cycles consumed in this call (Completed.1)", [c.where()])
 
 
+def pending_io_and_cycles(F, S, R):
+    """F7 (fixed 4bbff63). (a) iterate_outer must run process_io before it reports an exhausted budget: the iteration in which a VM
+    yields on a pipe syscall may overshoot the chunk limit after the VM's blocked state was recorded; returning first suspends a matched
+    reader/writer pair both blocked and the resumed run reports a bogus deadlock. (b) suspend() captures the pending iteration cycles
+    before suspend_vm charges for suspension; (c) resume() ends with the captured value, not zero."""
+    io = F.one("ckb_script", r"^ckb_script::scheduler::Scheduler::<DL, V, M>::iterate_outer$")
+    R.fn(io)
+    pio = io.calls_to(r"Scheduler::<.*>::process_io$")
+    sub = io.calls_to(r"::checked_sub$")
+    oks = [c for c in io.calls if re.search(r"Option::<.*>::ok_or(_else)?$", c.callee)]
+    R.sites += len(pio) + len(sub) + len(oks)
+    if not pio or not sub:
+        R.bad("order/io-before-limit-error/anchor-lost", "process_io / the budget subtraction not found in iterate_outer", [io.where()])
+    else:
+        budget = [c for c in oks if K.origin_sites(io, c.args[0]) & {x.bb for x in sub}]
+        if not budget:
+            R.bad("order/io-before-limit-error/anchor-lost", "the exhausted-budget error (checked_sub(..).ok_or(..)) not found in iterate_outer", [io.where()])
+        elif all(any(io.dominates(p.bb, c.bb) for p in pio) for c in budget):
+            R.ok("order/io-before-limit-error", "pending pipe IO is processed before an exhausted chunk budget is reported", [c.where() for c in budget])
+        else:
+            R.bad("order/io-before-limit-error", "iterate_outer reports the exhausted budget before process_io: a VM that yielded on a pipe syscall while overshooting the limit is "
+                  "suspended with its matched peer still blocked, and the resumed run deadlocks or totals differently", [c.where() for c in budget])
+    sus = F.one("ckb_script", r"^ckb_script::scheduler::Scheduler::<DL, V, M>::suspend$")
+    R.fn(sus)
+    aggs = K.agg_sites(sus, FSS)
+    sv = sus.calls_to(r"Scheduler::<.*>::suspend_vm$")
+    if aggs and sv:
+        bb, rv, ln = aggs[0]
+        i = (rv.get("fields") or []).index("iteration_cycles") if "iteration_cycles" in (rv.get("fields") or []) else None
+        op = rv["ops"][i] if i is not None else None
+        reads = []
+        if op is not None and "p" in op:
+            l = T.root_local(sus, op)
+            for d in sus.defs().get(l, []):
+                if d[0] == "assign" and "Scheduler.iteration_cycles" in json.dumps(d[3]):
+                    reads.append(d[1])
+        R.sites += 1
+        if reads and all(sus.dominates(r_, c.bb) for r_ in reads for c in sv):
+            R.ok("prov/pending-cycles/capture", "the pending iteration cycles are captured before suspend_vm charges for suspending the VMs", ["%s:%s" % (sus.file, ln)])
+        else:
+            R.bad("prov/pending-cycles/capture", "FullSuspendedState.iteration_cycles is read after the suspend_vm loop: it includes the (consensus-free) suspension charges instead of the cycles pending from process_io",
+                  ["%s:%s" % (sus.file, ln)])
+    else:
+        R.bad("prov/pending-cycles/capture/anchor-lost", "FullSuspendedState construction / suspend_vm calls not found in suspend()", [sus.where()])
+    res = F.one("ckb_script", r"^ckb_script::scheduler::Scheduler::<DL, V, M>::resume$")
+    R.fn(res)
+    ws = K.field_writes(res, "Scheduler.iteration_cycles")
+    ens = res.calls_to(r"::ensure_vms_instantiated$")
+    late = [w for w in ws if ens and res.dominates(ens[0].bb, w[0])]
+    R.sites += len(ws)
+    if not ens:
+        R.bad("prov/pending-cycles/restore/anchor-lost", "ensure_vms_instantiated not found in resume()", [res.where()])
+    elif late and all(any(re.search(r"field:.*FullSuspendedState\.iteration_cycles$", x) for x in w[1]) for w in late):
+        R.ok("prov/pending-cycles/restore", "after re-instantiating the VMs resume() sets the iteration counter to the captured pending cycles (re-instantiation itself stays free)", [res.where(late[0][0])])
+    else:
+        R.bad("prov/pending-cycles/restore", "resume() does not end with the captured pending iteration cycles (zeroed or keeps the re-instantiation charges): cycles charged by process_io in the "
+              "last iteration of a chunk are lost or suspension is charged", [res.where(late[0][0]) if late else res.where()])
+
+
 def run(F, S, R, tier):
     R.guard("prov/state-cycles", lambda: state_cycles(F, S, R))
+    R.guard("order/io-before-limit-error", lambda: pending_io_and_cycles(F, S, R))
     R.guard("fieldcov", lambda: fieldcov(F, S, R))
     n = T.run_tables(R, "table", F, TABLES)
     if n < FLOOR:
